@@ -190,7 +190,9 @@ func (ex *Exec) loopEnter(st *State, frID int, lp *Loop, from *ssa.BasicBlock, k
 			st.Assume(g)
 		}
 	}
-	// range loops over slices: the hidden index is within bounds (ssa: rangeindex starts at -1)
+	if spec != nil {
+		ex.canary(st, ex.loopName(fr, lp))
+	}
 	ex.run(st, frID, lp.Header, 0, from, k)
 }
 
@@ -262,11 +264,11 @@ func (ex *Exec) headerValidAt(t Term, watermark int) bool {
 // applyHavoc forgets the contents of the written locations.
 func (ex *Exec) applyHavoc(st *State, writes []writeRec) {
 	type agg struct {
-		all  bool
+		all     bool
 		unknown bool
-		refs map[string]Term
-		kind LocKind
-		sort string
+		refs    map[string]Term
+		kind    LocKind
+		sort    string
 	}
 	m := map[string]*agg{}
 	var order []string
